@@ -174,8 +174,8 @@ theorem inv_rib_sub (p : Peer) (rib' : List Route) (h : Inv p) (hsub : ∀ r ∈
     fun he r hr => h.core.down he r (hsub r hr), fun r hr => h.core.nll r (hsub r hr)⟩,
    fun r hr hs => h.stale r (hsub r hr) hs⟩
 
-theorem inv_announce (p : Peer) (fam key ver : Nat) (noLL : Bool) (h : Inv p) :
-    Inv (onAnnounce p fam key ver noLL 0) := by
+theorem inv_announce (p : Peer) (fam key ver : Nat) (noLL rej : Bool) (h : Inv p) :
+    Inv (onAnnounce p fam key ver noLL 0 rej) := by
   unfold onAnnounce
   split
   · exact h
@@ -186,8 +186,8 @@ theorem inv_announce (p : Peer) (fam key ver : Nat) (noLL : Bool) (h : Inv p) :
       cases hp : (famIds p).contains fam
       · simp_all
       · simpa using hp
-    have hmem : ∀ r ∈ announce p.rib fam key ver noLL 0,
-        r ∈ p.rib ∨ r = ⟨fam, key, ver, false, 0, noLL⟩ := by
+    have hmem : ∀ r ∈ announce p.rib fam key ver noLL 0 rej,
+        r ∈ p.rib ∨ r = ⟨fam, key, ver, false, 0, noLL, rej⟩ := by
       intro r hr
       simp only [announce, List.mem_append, List.mem_filter, List.mem_singleton] at hr
       rcases hr with hr | hr
@@ -877,7 +877,7 @@ theorem inv_tick (p : Peer) (d : Nat) (h : Inv p) : Inv (tick p d) := inv_advanc
 /-- the one assumption on the events of a history: the peer does not itself announce routes that
 already carry LLGR_STALE (the harness never does) -/
 def EvOK : Ev → Prop
-  | .ann _ _ _ _ n => n = 0
+  | .ann _ _ _ _ n _ => n = 0
   | _ => True
 
 theorem inv_stepRaw (p : Peer) (e : Ev) (he : EvOK e) (h : Inv p) : Inv (stepRaw p e) := by
@@ -885,13 +885,23 @@ theorem inv_stepRaw (p : Peer) (e : Ev) (he : EvOK e) (h : Inv p) : Inv (stepRaw
   | est c => exact inv_onEst p c h
   | loss k => exact inv_onDown p _ h
   | goto n ad => exact inv_goto p n ad h
-  | ann f k v noLL n =>
+  | ann f k v noLL n rj =>
     have : n = 0 := he
     subst this
-    exact inv_announce p f k v noLL h
+    exact inv_announce p f k v noLL rj h
   | wd f k => exact inv_withdraw p f k h
   | eor f => exact inv_onEOR p f h
   | tick d => exact inv_tick p d h
+  | del =>
+    show Inv (onDelete p)
+    apply inv_of_nil _ rfl
+    · intro h1; exact absurd h1 (by simp [onDelete])
+    · intro D hD; exact absurd hD (by simp [onDelete])
+    · intro a ha hr
+      simp only [onDelete, List.mem_map] at ha
+      obtain ⟨b, _, rfl⟩ := ha
+      simp [freshFam] at hr
+    · intro hl; exact absurd hl (by simp [onDelete])
 
 theorem inv_step (p : Peer) (e : Ev) (he : EvOK e) (h : Inv p) : Inv (step p e) := by
   cases e with
@@ -899,9 +909,10 @@ theorem inv_step (p : Peer) (e : Ev) (he : EvOK e) (h : Inv p) : Inv (step p e) 
   | est c => exact inv_tick _ 0 (inv_stepRaw p _ he h)
   | loss k => exact inv_tick _ 0 (inv_stepRaw p _ he h)
   | goto n ad => exact inv_tick _ 0 (inv_stepRaw p _ he h)
-  | ann f k v noLL n => exact inv_tick _ 0 (inv_stepRaw p _ he h)
+  | ann f k v noLL n rj => exact inv_tick _ 0 (inv_stepRaw p _ he h)
   | wd f k => exact inv_tick _ 0 (inv_stepRaw p _ he h)
   | eor f => exact inv_tick _ 0 (inv_stepRaw p _ he h)
+  | del => exact inv_tick _ 0 (inv_stepRaw p _ he h)
 
 /-- a neighbour before its first session -/
 structure Init (p : Peer) : Prop where
